@@ -196,7 +196,7 @@ pub fn run(p: &Params) -> Report {
     let mine = p.share(total);
     let mut rng = Rng::new(p.shard_seed() ^ 0xC08);
     let mut mon = C08 { rep: Report::new("C08"), case_seed: 0, mirrors: vec![], max_steps: 5 };
-    mon.rep.rule = "cases = restart points: after every sealed block of random histories the state is serialized with to_block + stdcode, the stake set rebuilt from its iterator and every node of the content-addressed store copied into a fresh store; from_block on those gives a second lineage that is fed the identical next 5 blocks (all batches, valid and hostile, and proposer actions). After every step both lineages must agree on accept/reject and on the whole header. Some histories contain ERG mints that do enough work to raise the recorded DOSC speed (counted). Restart points are classified (with/without action, pending tips, empty block, epoch boundary, TIP activation on testnet 499->500 and fabricated mainnet activation heights). Non-trivial = every restart point; distinct by (header hash, class)".into();
+    mon.rep.rule = "cases = restart points: after every sealed block of random histories the state is serialized with to_block + stdcode, the stake set rebuilt from its iterator and every node of the content-addressed store copied into a fresh store; from_block on those gives a second lineage that is fed the identical next 5 blocks (all batches, valid and hostile, and proposer actions). After every step both lineages must agree on accept/reject and on the whole header. Fee pools range up to 2^126 (at, just below and above the largest coin value). Some histories contain ERG mints that do enough work to raise the recorded DOSC speed (counted). Restart points are classified (with/without action, pending tips, empty block, epoch boundary, TIP activation on testnet 499->500 and fabricated mainnet activation heights). Non-trivial = every restart point; distinct by (header hash, class)".into();
     if p.only_case.is_none() {
         mon.rep.require("blocks mirrored on a restarted lineage", p.n(3000, 60000));
         mon.rep.require("restart points followed to the end of their continuation", p.n(300, 6000));
@@ -213,11 +213,16 @@ pub fn run(p: &Params) -> Report {
         mon.mirrors.clear();
         let mut r = Rng::new(case_seed ^ 8);
         let mult = *r.pick(&[0u128, 0, 100, 1_000_000]);
+        // fee pools are plain u128 accumulators: also at, just below and above the largest coin value
+        let pool = *r.pick(&[1u128 << 40, 1 << 40, 1 << 40, 70_000, (1 << 120) - 3, 1 << 120, (1 << 120) + 12_345, 1 << 126]);
+        if pool > MAX_COINVAL {
+            mon.rep.count("histories whose fee pool exceeds the largest coin value");
+        }
         let mut w = match case % 8 {
-            0 => World::fabricated(case_seed, NetID::Testnet, 496 + r.below(3), mult, 1 << 40),
-            1 => World::fabricated(case_seed, NetID::Mainnet, *r.pick(&[1_047_996u64, 949_997, 829_997, 1_199_996]), mult, 1 << 40),
-            2 => World::fabricated_staked(case_seed, NetID::Custom02, 199_996 + r.below(3), mult, 1 << 40, 4),
-            4 => World::fabricated_staked(case_seed, *r.pick(&[NetID::Custom02, NetID::Custom08, NetID::Mainnet]), (5 + r.below(3)) * STAKE_EPOCH + *r.pick(&[0u64, 1, 7, 199_995, 199_997]), mult, 1 << 40, 5),
+            0 => World::fabricated(case_seed, NetID::Testnet, 496 + r.below(3), mult, pool),
+            1 => World::fabricated(case_seed, NetID::Mainnet, *r.pick(&[1_047_996u64, 949_997, 829_997, 1_199_996]), mult, pool),
+            2 => World::fabricated_staked(case_seed, NetID::Custom02, 199_996 + r.below(3), mult, pool, 4),
+            4 => World::fabricated_staked(case_seed, *r.pick(&[NetID::Custom02, NetID::Custom08, NetID::Mainnet]), (5 + r.below(3)) * STAKE_EPOCH + *r.pick(&[0u64, 1, 7, 199_995, 199_997]), mult, pool, 5),
             3 => World::fabricated(case_seed, NetID::Custom08, 3, mult, 0),
             _ => World::random(case_seed),
         };
